@@ -84,6 +84,23 @@ static Plan gen_c06(uint64_t seed, int64_t index, bool thorough)
         int n = rng.range(0, 30);
         for (int i = 0; i < n; ++i) op.raw += " \t\n\r\x0b\x0c"[rng.below(6)];
     }
+    else if (k < 88)
+    {
+        // fixed-capacity stacks (cstring_buffer): openers that each push a state plus an empty-rule reduction
+        mode = "fixed_stack_pressure";
+        static const std::vector<std::pair<const char*, const char*>> openers = { { "G3", "x" }, { "G5", "{" }, { "G7", "{" }, { "G11", "(" }, { "G3", "zx" } };
+        const auto& oc = openers[size_t(rng.below(openers.size()))];
+        std::vector<std::string> fk = keys_for({ oc.first });
+        key = rng.pick(fk);
+        m = model_for(grammar_of(key));
+        sh.budget = 0; sh.p_skip_ws_off = 0;
+        op = make_sentence_op(rng, key, sh);
+        op.toks.clear(); op.tail.clear(); op.use_raw = true; op.buffer = BUF_CSTRING;
+        int N = CSTRING_SIZES[rng.below(4)];
+        int fill = N - 1 - int(rng.below(3));
+        while (int(op.raw.size()) + int(std::string(oc.second).size()) <= fill) op.raw += oc.second;
+        if (rng.chance(1, 3) && !op.raw.empty()) op.raw[op.raw.size() - 1] = "})];"[rng.below(4)];
+    }
     else if (k < 89)
     {
         // one very long token: lengths around the 16-bit boundary and beyond
@@ -138,7 +155,7 @@ static std::vector<Violation> case_c06(const Plan& p, CaseCtx& cx)
     std::vector<Violation> vs;
     RunResult rr = exec_plan(p, kFlags);
     const OpResult& o = rr.tasks[0][0];
-    account(cx, p, rr, o.rend.faults_fired > 0 || p.mode == "soup" || p.mode == "grow" || p.mode == "deep" || p.mode == "long_lexeme" || p.mode == "regex_soup" || p.mode == "whitespace_only" || p.mode == "regex_empty");
+    account(cx, p, rr, o.rend.faults_fired > 0 || p.mode == "soup" || p.mode == "grow" || p.mode == "deep" || p.mode == "fixed_stack_pressure" || p.mode == "long_lexeme" || p.mode == "regex_soup" || p.mode == "whitespace_only" || p.mode == "regex_empty");
     if (cx.st)
     {
         cx.st->add("mode." + p.mode);
@@ -163,6 +180,13 @@ static std::vector<Violation> case_c06(const Plan& p, CaseCtx& cx)
             if (r.discarded_terms) cx.st->add("probe.recovery_discard_loop");
             if (r.max_depth > 100) cx.st->add("probe.deep_stack_over_100");
             if (r.max_depth > 1024) cx.st->add("probe.stack_growth_past_initial_capacity");
+            if (o.rend.effective_buffer == BUF_CSTRING)
+            {
+                int empties = 0; for (const ref::RuleSpec& rs : o.model->g.rules) if (rs.rhs.empty()) ++empties;
+                int64_t cap = int64_t(o.rend.bytes.size()) + 1 + empties + 1;
+                if (r.max_depth > cap) cx.st->add("probe.fixed_stack_capacity_exceeded");
+                if (r.max_depth > cap && o.out.exc == 3) cx.st->add("probe.capacity_overrun_reported_by_exception");
+            }
         }
     }
     return vs;
